@@ -15,6 +15,18 @@ from .machines import PackSites, _enclosing_loop, explore, is_pack_write_handle,
 DIRECT = 'container:Container.add_streamed_objects_to_pack'
 
 
+def set_valued_names(fn):
+    """Local names that are initialised as sets (`x = set()` / `x = set(...)` / `x: set[...] = ...`)."""
+    out = set()
+    for n in walk_local(fn.node):
+        if isinstance(n, (ast.Assign, ast.AnnAssign)):
+            tgt = n.targets[0] if isinstance(n, ast.Assign) and len(n.targets) == 1 else getattr(n, 'target', None)
+            v = n.value
+            if isinstance(tgt, ast.Name) and v is not None and ((isinstance(v, ast.Call) and norm(v.func) in ('set', 'frozenset')) or isinstance(v, (ast.Set, ast.SetComp))):
+                out.add(tgt.id)
+    return out
+
+
 class AppendHandleMachine(Machine):
     """R3: typestate of an append-mode ('a') handle.  A seek does not move where O_APPEND writes: after a SEEK the
     handle is 'rewound' until a TRUNCATE cuts the file at that position; TELL / WRITE while rewound means the position
@@ -81,7 +93,7 @@ class IterMachine(Machine):
         # the known set = right operand of `X in S` tests in the loop
         for n in walk_local(fn.node):
             if isinstance(n, ast.Compare) and len(n.ops) == 1 and isinstance(n.ops[0], (ast.In, ast.NotIn)) and isinstance(n.comparators[0], ast.Name):
-                if _enclosing_loop(n) is not None and 'hashkey' in norm(n.left):
+                if _enclosing_loop(n) is not None and 'hashkey' in norm(n.left) and n.comparators[0].id in set_valued_names(fn):
                     self.known_names.add(n.comparators[0].id)
         for n in g.nodes:
             if n.frame is g.top and n.kind == 'call' and n.callee is not None and n.callee.kind == 'method' and isinstance(n.callee.recv, ast.Name) \
@@ -266,7 +278,7 @@ def known_set_accumulation(ctx, chk, rule):
     known = set()
     for n in walk_local(fn.node):
         if isinstance(n, ast.Compare) and len(n.ops) == 1 and isinstance(n.ops[0], (ast.In, ast.NotIn)) and isinstance(n.comparators[0], ast.Name) \
-                and _enclosing_loop(n) is not None and 'hashkey' in norm(n.left):
+                and _enclosing_loop(n) is not None and 'hashkey' in norm(n.left) and n.comparators[0].id in set_valued_names(fn):
             known.add(n.comparators[0].id)
     chk.require(known, f'{DIRECT}: known-keys set not found')
     for k in sorted(known):
